@@ -66,14 +66,14 @@ func TestVerifBounded_C08_JoinRetry(t *testing.T) {
 		cfg1 := verifLifecyclerCfg(store, "ing1", numTokens, "")
 		cfg1.RingTokenGenerator = &verifLowestFree{hook: func() {
 			_ = services.StartAndAwaitRunning(ctx, lc2)
-			verifAwaitState(store, "ing2", ACTIVE, 3*time.Second)
+			verifAwaitState(store, "ing2", ACTIVE, 15*time.Second)
 		}}
 		lc1, err := NewLifecycler(cfg1, nil, "test", "ring", true, log.NewNopLogger(), nil)
 		if err != nil {
 			t.Fatal(err)
 		}
 		_ = services.StartAndAwaitRunning(ctx, lc1)
-		if !verifAwaitState(store, "ing1", ACTIVE, 3*time.Second) {
+		if !verifAwaitState(store, "ing1", ACTIVE, 15*time.Second) {
 			report(tag+":never-active", "ing1 did not become ACTIVE")
 		}
 		v, _ := store.Get(ctx, "ring")
